@@ -189,6 +189,11 @@ func genPipeCase(r *vlib.R, emit func(string), dflt string) int {
 		if nd > 40 {
 			nd = r.Range(0, 3)
 		}
+		if r.Chance(1, 3) {
+			// the resolver answers with a bare alias; the budget runs out (or not) inside the cache's own chase
+			emit(fmt.Sprintf("pipe alias %d %s 10.%d.0.%d:40000 %d %d", r.Range(1, 3), vlib.B(r.Chance(2, 3)), r.Intn(200), 1+r.Intn(200), kind, nd))
+			continue
+		}
 		emit(fmt.Sprintf("pipe query %d %s %s 10.%d.0.%d:40000 %d %d", r.Range(1, 3), vlib.B(r.Chance(2, 3)), vlib.B(r.Chance(1, 3)), r.Intn(200), 1+r.Intn(200), kind, nd))
 	}
 	return n + 1
@@ -267,6 +272,8 @@ func sizeFor(r *vlib.R, fam string, big bool) int {
 		return r.Range(3, 20)
 	case "manysig":
 		return r.Range(1, 14)
+	case "updown":
+		return r.Range(3, 9)
 	}
 	return 3
 }
@@ -374,6 +381,9 @@ func gen(r *vlib.R, n int, tier string, emit func(string)) {
 		{"l3 new manysig 12 0 enforce 0 0 0 0 30", "l3 query t t t", "l3 again 9"},
 		{"l3 new manysig 6 1 shadow 0 0 2 5 30", "l3 query t t t"},
 		{"l3 new manysig 8 2 enforce 0 0 1000 0 30", "l3 query t t t", "l3 again 11"},
+		{"l3 new updown 7 0 enforce 6 0 0 5 30", "l3 query t f t"},
+		{"l3 new updown 6 1 enforce 5 0 0 10 30", "l3 query f f f", "l3 again 12"},
+		{"l3 new updown 8 0 shadow 0 0 0 5 30", "l3 query t f t"},
 		{"l3 new manysig 6 2 shadow 0 0 1000 5 30", "l3 query t t t"},
 	} {
 		for _, op := range a {
